@@ -3,7 +3,10 @@
 The Gallina model (Csv/CsvModel.v: Python's csv writer and reader state machine; Csv/Fields.v: the
 cell codecs; Csv/Wbs.v: tasks_to_raws / raws_to_wbs and the two csv_io functions) is the functional
 specification: Props_C13.v proves that on it the round trip is the stated equivalence and a
-fixpoint.  This module ties the model to the code on every run:
+fixpoint (C13_codec, C13_fields, C13_rows, C13_rebuild, C13_roundtrip, C13_fix, C13_bom, C13_handwritten).
+Header, date format, delimiters, reserved names and the shape of the csv dialect calls are extracted from the
+repository on every run by harness/constparts/csv.py, both for gen/Consts.v (the model and the theorems) and
+for the files this module derives (load_layout).  This module ties the model to the code on every run:
   * byte level: the file write_csv produces must be the model's text for the same WBS;
   * the WBS read_csv returns must be the model's reading of that very file (compared in Coq);
   * the property's equivalence (Coq, CsvCheck.wbs_equiv_b) and the fixpoint clause are evaluated
@@ -11,7 +14,8 @@ fixpoint.  This module ties the model to the code on every run:
   * hand-written files (LF line ends, BOM, needless quotes, rows in another order, no final
     newline, columns in another order, no min_start column) must load with the meaning of the WBS
     they were derived from; malformed files must end in the exception class the model predicts.
-The same equivalence is also evaluated in Python on the implementation's objects (auxiliary)."""
+The same equivalence is also evaluated in Python on the implementation's objects (auxiliary).
+The domain predicate of the theorems (WbsSpec.wbs_ok_b) is evaluated in Coq on the WBS of every case."""
 import csv
 import io
 import json
@@ -20,13 +24,47 @@ from datetime import datetime, timedelta
 
 from harness import build, common
 from harness.common import z, zopt, coq_list, coq_bool, InfraError
+from harness.constparts import csv as csvparts
 
 ID = 'C13'
 PROPS_FILE = 'Props/Props_C13.v'
+EXTRA_TARGETS = ['Csv/CsvCheck.vo']       # the executable checker the generated case files import (not in the cone of Props_C13.v)
+CONST_PARTS = ('csv',)                    # gen/Consts.v: header, date format, delimiters, reserved names, dialect shape
 DAY = 86400_000_000
 EPOCH = datetime(1970, 1, 1)
 DATE_LO, DATE_HI = -365, 36160          # 1969-01-01 .. 2068-12-31 (exclusive upper bound)
-DEFAULT_FIELDS = ['id', 'name', 'resource', 'start', 'end', 'estimate', 'spent', 'milestone', 'parent_id', 'predecessor_ids']
+
+# the layout as the property text fixes it; used literally only by the hand-written files of the corpus
+SPEC_LAYOUT = {'fields': ['id', 'name', 'resource', 'start', 'end', 'estimate', 'spent', 'milestone', 'parent_id', 'predecessor_ids'],
+               'date_format': '%d.%m.%y', 'delimiter_write': ';', 'delimiter_read': ';', 'pred_sep_write': ';', 'pred_sep_read': ';',
+               'header_strip': '\ufeff', 'bool_true': 'True'}
+# the layout in effect: extracted from the repository by harness/constparts/csv.py at the start of every run (load_layout);
+# the files this module derives from a WBS (variants, malformed files) are laid out with these values
+LAYOUT = {}
+
+
+def load_layout(ctx):
+    """header / date format / delimiters as the code under test defines them (the same extraction that writes gen/Consts.v);
+    a value that cannot be located is an infrastructure problem, a value that differs from the property text breaks the tie"""
+    vals, problems = csvparts.values(ctx.repo)
+    for p in problems:
+        ctx.infra_problem('csv layout extraction: ' + p)
+    LAYOUT.clear()
+    for k, spec in SPEC_LAYOUT.items():
+        v = vals.get(k)
+        LAYOUT[k] = spec if v is None else v
+        if vals.get(k) is not None and vals[k] != spec:
+            ctx.mismatch('the CSV layout of the code differs from the layout in the property text: %s is %r, the property says %r'
+                         % (k, vals[k], spec), {'layout': {kk: vals.get(kk) for kk in SPEC_LAYOUT}})
+    return vals
+
+
+def default_fields():
+    return list(LAYOUT.get('fields') or SPEC_LAYOUT['fields'])
+
+
+def delim():
+    return LAYOUT.get('delimiter_write') or SPEC_LAYOUT['delimiter_write']
 
 HEADER = """From PJ Require Import Base.Prelude Csv.CsvModel Csv.Fields Csv.Wbs Csv.CsvCheck.
 Open Scope Z_scope.
@@ -41,6 +79,7 @@ FLAGS = {1: 'the written file differs from the model text',
          16: 'a further read/write cycle does not reproduce the file (fixpoint clause)',
          32: 'a float hypothesis (float(repr x) = x, repr x is a plain cell) fails on a value of the case',
          64: 'outside the model (duplicate ids or column names)'}
+OUTSIDE_DOMAIN = 128      # information: WbsSpec.wbs_ok_b is false on the WBS of the case (outside the domain of the theorems)
 
 
 # ---------- term printing ---------------------------------------------------------------------------
@@ -183,7 +222,7 @@ def file_cells(text):
     """all cells of a file as Python's csv reader sees them (the harness only collects candidate float texts)"""
     cells = []
     try:
-        for row in csv.reader(io.StringIO(text, newline='\n'), delimiter=';'):
+        for row in csv.reader(io.StringIO(text, newline='\n'), delimiter=delim()):
             cells += row
     except csv.Error:
         pass
@@ -334,8 +373,11 @@ def us_dt(us):
     return EPOCH + timedelta(microseconds=us)
 
 
-def wbs_rows(w, date_fmt='%d.%m.%y'):
-    """header and rows as write_csv lays them out (harness-side re-statement, used only to derive variants)"""
+def wbs_rows(w, date_fmt=None):
+    """header and rows as write_csv lays them out (harness-side re-statement, used only to derive variants); header, date
+    format and predecessor separator are the ones extracted from the code (LAYOUT)"""
+    date_fmt = date_fmt or LAYOUT.get('date_format') or SPEC_LAYOUT['date_format']
+    pred_sep = LAYOUT.get('pred_sep_write') or SPEC_LAYOUT['pred_sep_write']
     raws = []
 
     def go(t, parent):
@@ -357,27 +399,28 @@ def wbs_rows(w, date_fmt='%d.%m.%y'):
                us_dt(t['start']).strftime(date_fmt) if t['start'] is not None else '',
                us_dt(t['end']).strftime(date_fmt) if t['end'] is not None else '',
                '' if est is None else str(est), '' if sp is None else str(sp), str(t['milestone']),
-               '' if parent is None else str(parent), ';'.join(str(p) for p in t['preds'])]
+               '' if parent is None else str(parent), pred_sep.join(str(p) for p in t['preds'])]
         for k in cols:
             if k == 'min_start':
                 row.append(str(us_dt(t['min_start'])) if t['min_start'] is not None else '')
             else:
                 row.append(cust.get(k) or '')
         rows.append(row)
-    return DEFAULT_FIELDS + cols, rows, [p for _t, p in raws]
+    return default_fields() + cols, rows, [p for _t, p in raws]
 
 
 def print_rows(rows, lineterminator='\r\n', quote_all=False):
-    """harness-side CSV printer for the derived files: a cell is quoted when it contains ; " CR or LF (or always)"""
+    """harness-side CSV printer for the derived files: a cell is quoted when it contains the delimiter " CR or LF (or always)"""
     out = []
+    d = delim()
     for r in rows:
         cells = []
         for c in r:
-            if quote_all or any(ch in c for ch in ';"\r\n') or (len(r) == 1 and c == ''):
+            if quote_all or any(ch in c for ch in d + '"\r\n') or (len(r) == 1 and c == ''):
                 cells.append('"' + c.replace('"', '""') + '"')
             else:
                 cells.append(c)
-        out.append(';'.join(cells) + lineterminator)
+        out.append(d.join(cells) + lineterminator)
     return ''.join(out)
 
 
@@ -490,7 +533,7 @@ def gen_malformed(rng, w):
     elif how == 'empty-file':
         text = ''
     elif how == 'header-only-lf':
-        text = ';'.join(DEFAULT_FIELDS) + rng.choice(['', '\n', '\r\n', '\r'])
+        text = delim().join(default_fields()) + rng.choice(['', '\n', '\r\n', '\r'])
     if text is None:
         text = print_rows([header] + rows, term)
         lines = text.split(term)
@@ -518,7 +561,7 @@ def node(i, name=None, kids=(), preds=(), custom=(), **kw):
 
 
 D = lambda y, m, d: (datetime(y, m, d) - EPOCH).days * DAY   # noqa
-HDR = ';'.join(DEFAULT_FIELDS)
+HDR = ';'.join(SPEC_LAYOUT['fields'])      # the header of the property text, literally
 
 CORPUS = [
     # F19 witnesses (repaired by fixes/C13-1..3): a parent with id 0; min_start; stale parent_id / predecessor_ids attributes
@@ -609,11 +652,28 @@ def emit_case(case, obs):
     return term, problems
 
 
+def checker_fresh():
+    """Csv/CsvCheck.vo exists and is not older than any source or compiled file it depends on (gen/Consts.v included)"""
+    import os
+    try:
+        t = os.path.getmtime(os.path.join(build.COQ, 'Csv/CsvCheck.vo'))
+        for rel in build.dep_cone('Csv/CsvCheck.v'):
+            v = os.path.join(build.COQ, rel)
+            if os.path.getmtime(v) > os.path.getmtime(v + 'o') or os.path.getmtime(v + 'o') > t:
+                return False
+        return True
+    except OSError:
+        return False
+
+
 def evaluate(ctx, cases):
-    # the executable checker is not in the cone of the statement file: build it (no-op when up to date)
-    ok, log = build.make(16, targets=['Csv/CsvCheck.vo'])
-    if not ok:
-        raise InfraError('Csv/CsvCheck.v does not build: ' + log[-1500:])
+    # the executable checker Csv/CsvCheck.vo is not in the cone of the statement file: EXTRA_TARGETS has it built
+    # (check_proofs); when a proof file of the cone is broken make stops early, so build the checker alone then - it depends on
+    # definition files only, and the search for a failing input can go on
+    if not checker_fresh():
+        ok, log = build.make(16, targets=['Csv/CsvCheck.vo'])
+        if not ok:
+            raise InfraError('Csv/CsvCheck.v does not build: ' + log[-1500:])
     chunks = [cases[i:i + 60] for i in range(0, len(cases), 60)]
     outs = ctx.impl_run_many('c13_impl', chunks, jobs=8)
     obs = []
@@ -638,7 +698,12 @@ def evaluate(ctx, cases):
 
 
 def flags_of(code):
+    """the disagreement flags of a code (the domain bit is information, see in_domain)"""
     return [b for b in (1, 2, 4, 8, 16, 32, 64) if code & b]
+
+
+def in_domain(code):
+    return not (code & OUTSIDE_DOMAIN)
 
 
 def brief(case, obs):
@@ -695,9 +760,10 @@ def decide(ctx, case, obs, code, probs, from_corpus):
 
 def run(ctx):
     quick = ctx.tier == 'quick'
-    n_round = 260 if quick else 3000
-    n_var = 120 if quick else 1400
-    n_mal = 90 if quick else 900
+    n_round = 230 if quick else 3000
+    n_var = 110 if quick else 1400
+    n_mal = 80 if quick else 900
+    layout = load_layout(ctx)
     cases = [dict(c) for c in CORPUS]
     rng = ctx.rng
     for _ in range(n_round):
@@ -714,9 +780,14 @@ def run(ctx):
     dist = {}
     distinct = set()
     sizes = {'tasks': 0, 'max_depth': 0, 'hostile_texts': 0, 'custom_values': 0, 'dependencies': 0, 'id0_parents': 0}
+    domain = {'round_cases_inside_theorem_domain': 0, 'round_cases_outside_theorem_domain': 0,
+              'file_meanings_inside_theorem_domain': 0, 'file_meanings_outside_theorem_domain': 0}
     for i, (c, o, cd, pr) in enumerate(zip(cases, obs, codes, probs)):
         label = decide(ctx, c, o, cd if cd is not None else 0, pr or [], i < len(CORPUS))
         dist[label] = dist.get(label, 0) + 1
+        if cd is not None and (c['kind'] == 'round' or c.get('meaning') is not None):
+            domain[('round_cases_' if c['kind'] == 'round' else 'file_meanings_')
+                   + ('inside' if in_domain(cd) else 'outside') + '_theorem_domain'] += 1
         if c['kind'] == 'read':
             for h in c['how']:
                 dist['how:' + h] = dist.get('how:' + h, 0) + 1
@@ -732,11 +803,17 @@ def run(ctx):
         if nontrivial(c):
             distinct.add(json.dumps({k: c[k] for k in ('kind', 'wbs', 'file') if k in c}, sort_keys=True))
     dist.update(sizes)
+    dist.update(domain)
+    gen_cases = cases[len(CORPUS):]
+    dist.update(corpus_cases=len(cases) - len(gen_cases),
+                generated_round_cases=sum(1 for c in gen_cases if c['kind'] == 'round'),
+                generated_hand_written_files=sum(1 for c in gen_cases if c['kind'] == 'read' and not c.get('malformed')),
+                generated_malformed_files=sum(1 for c in gen_cases if c.get('malformed')))
     first_gen = len(CORPUS)
     ctx.coverage.update(
         evaluations=len(cases),
         distinct_nontrivial=len(distinct),
-        rule='corpus (F19 witnesses, the repository test, boundary texts/dates) + random WBSs (0-16 tasks, depth <= 5, ids incl. 0, '
+        rule='corpus (F19 witnesses, the repository test, boundary texts/dates) + random WBSs (0-%d tasks, depth <= 5, ids incl. 0, ' % (10 if quick else 16) +
              'negatives and > 2^32, id 0 as a parent, names/resources/custom values from a hostile pool: delimiter, quotes, CR, LF, CRLF, '
              'blanks, BOM, NUL, non-ASCII; sparse custom attributes of str/int/float/bool/None values and hostile attribute names; '
              'fractional and integer amounts; dates in 1969-2068 incl. both ends; min_start; milestones; acyclic dependencies) '
@@ -748,6 +825,9 @@ def run(ctx):
                  brief(cases[-1], obs[-1])],
         distribution=dist,
         traces_validated_against_impl=len(cases),
+        layout_extracted_from_repo={k: layout.get(k) for k in SPEC_LAYOUT},
+        domain_predicate='WbsSpec.wbs_ok_b (sound for the hypothesis wbs_ok of C13_rebuild/C13_roundtrip/C13_fix) evaluated in Coq on the WBS of '
+                         'every round case and on the meaning of every hand-written file; counts in distribution.*_theorem_domain',
         comparison='bytes of every written file; re-read WBS field by field (exact) against the model reading of the same file; '
                    'property equivalence and fixpoint evaluated in Coq on the implementation output; the same equivalence in Python',
     )
@@ -755,8 +835,8 @@ def run(ctx):
 
 
 ASSUMPTIONS = [
-    'Python float repr/parse is a Section hypothesis of the theorems (float(repr x) = x; repr x is a non-empty cell without ; " CR LF); '
-    'it is evaluated on every amount of every case of this run (flag 32)',
+    'Python float str/parse is a hypothesis of the theorems (WbsSpec.float_codec_ok: float(str x) = x; str x is not the empty text); '
+    'it is evaluated, together with "str x needs no quoting", on every amount of every case of this run (flag 32)',
     'CPython csv (excel dialect, QUOTE_MINIMAL), str(int)/int(), strftime/strptime(%d.%m.%y), str(datetime)/fromisoformat, utf-8 '
     'codec and text files with newline=LF are modelled by hand (Csv/CsvModel.v, Csv/Fields.v); canonical cell forms only: the '
     'leniencies of int() (blanks, _, +) and strptime (one-digit day/month) are outside the model',
@@ -768,6 +848,9 @@ ASSUMPTIONS = [
 
 
 def replay(ctx, rep):
+    load_layout(ctx)
+    if 'case' not in rep or 'case' not in rep['case']:
+        raise InfraError('replay file holds no case (kind %s)' % rep.get('kind'))
     case = rep['case']['case']
     obs, codes, probs = evaluate(ctx, [case])
     print('replay: case %s' % json.dumps(case)[:3000])
